@@ -126,10 +126,62 @@ def _work(job):
                 pass
         else:
             out["reason"] += "z3: " + s.reason_unknown()
+            if "norefute" not in tactics:
+                m = _sample_refute(hyps, goal, min(20.0, timeout_ms / 1000.0))
+                if m is not None:
+                    out.update(verdict="sat", backend="z3-" + z3.get_version_string() + " after partial instantiation", model=m)
     except Exception as e:
         out["reason"] += f"{type(e).__name__}: {e}"
     out["time"] = time.time() - t0
     return out
+
+
+_POOL_VALUES = ["0", "1", "-1", "2", "1/2", "-1/2", "3", "3/5", "4/5", "-2", "5", "1/4", "12/13", "5/13", "7"]
+
+
+def _sample_refute(hyps, goal, budget_s):
+    """counter-model search for obligations the nonlinear solver leaves open: fix a random subset of the real-valued unknowns
+    (constants and applications of uninterpreted functions) to small rationals and let z3 solve for the rest.  Any model found
+    is a genuine model of hyps and not(goal)."""
+    import random
+    rng = random.Random(12345)
+    terms, seen, stack = [], set(), list(hyps) + [goal]
+    while stack:
+        x = stack.pop()
+        if x.get_id() in seen or not z3.is_app(x):
+            continue
+        seen.add(x.get_id())
+        if x.decl().kind() == z3.Z3_OP_UNINTERPRETED and x.sort().kind() == z3.Z3_REAL_SORT:
+            if x.num_args() == 0 or all(c.sort().kind() == z3.Z3_INT_SORT for c in x.children()):
+                terms.append(x)
+        stack.extend(x.children())
+    terms.sort(key=lambda t: t.sexpr())
+    if not terms:
+        return None
+    t_end = time.time() + budget_s
+    attempt = 0
+    while time.time() < t_end and attempt < 200:
+        attempt += 1
+        s = z3.Solver()
+        s.set("timeout", 1500)
+        for h in hyps:
+            s.add(h)
+        s.add(z3.Not(goal))
+        frac = rng.choice([0.3, 0.5, 0.7, 0.85])
+        for t in terms:
+            if rng.random() < frac:
+                s.add(t == z3.RealVal(rng.choice(_POOL_VALUES)))
+        if s.check() == z3.sat:
+            m = s.model()
+            out = {d.name(): _val(m[d]) for d in m.decls() if d.arity() == 0}
+            for t in terms:
+                if t.num_args() > 0:
+                    args = ",".join(str(_val(m.eval(c, model_completion=True))) for c in t.children())
+                    out[f"{t.decl().name()}({args})"] = _val(m.eval(t, model_completion=True))
+                    out[f"{t.decl().name()}@{t.sexpr()}"] = _val(m.eval(t, model_completion=True))
+            out["__found_by__"] = f"partial instantiation, attempt {attempt}"
+            return out
+    return None
 
 
 def _linear_in_ctx(poly, hyps, goal, ctx, timeout_ms):
